@@ -80,7 +80,10 @@ let run_case op t =
   | Some p ->
     let n1 = p.n1 and d1 = p.d1 and n2 = p.n2 and d2 = p.d2 and pok = p.pok in
     let wc = Z.max w1 w2 in
-    let op = if String.length op > 3 && String.sub op 0 3 = "ub_" then String.sub op 3 (String.length op - 3) else op in
+    let op =
+      if String.length op > 3 && String.sub op 0 3 = "ub_" then
+        (match String.sub op 3 (String.length op - 3) with "cast" -> "castw" | o -> o)
+      else op in
     (match op with
      | "cast" | "tp_cast" ->
        let c = next_z t in
